@@ -12,7 +12,7 @@ import (
 )
 
 
-var keys = []string{"h1", "h2", "H1", "vol", "str", "lst"} // vol: hash with a deadline; str / lst: other types
+var keys = []string{"h1", "h2", "H1", "vol", "str", "lst", "h3", "h4"} // vol: hash with a deadline; str / lst: other types; h3 h4: rarely written (refused commands meet a missing key) // vol: hash with a deadline; str / lst: other types
 var fields = []string{"", "f", "F", "1", "\x00\xffb", "f\r\ng"}
 
 // focus: the key most operations of the current program go to (sequences that need several steps on one
@@ -93,7 +93,7 @@ func genOp(t *rapid.T) kit.Cmd {
 		by := gen.Pick(t, "by", "1", "-1", "5", "4611686018427387904", "-4611686018427387904", "9223372036854775807", "-9223372036854775808", "abc", "", "1.5")
 		return c("hincrby", k, field(t), by)
 	case 12:
-		by := gen.Pick(t, "byf", "0.5", "-0.5", "1", "1e300", "-1e300", "abc", "", "2.25", "1.7e308", "1.7e308", "-1.7e308", "1e308")
+		by := gen.Pick(t, "byf", "0.5", "-0.5", "1", "1e300", "-1e300", "abc", "", "2.25", "1.7e308", "1.7e308", "-1.7e308", "1e308", "inf", "-inf", "nan", "+Inf", "infinity", "1e400", "0x10", " 1")
 		return c("hincrbyfloat", k, field(t), by)
 	case 13:
 		switch rapid.IntRange(0, 3).Draw(t, "form") {
